@@ -35,11 +35,12 @@ type c13Scenario struct {
 
 func init() {
 	register(&PropDef{
-		ID:   "C13",
-		Rule: "scenario = a StreamManager running a real client (SM on/off) through 1-4 rounds of: termination of the established session (FIN / RST / graceful </stream:stream> / stream error at a drawn instant), then 0-6 failing attempts (connection refused, dial timeout, accept-then-reset, negotiation cut at header/auth/bind) or a permanent failure (SASL <failure/>), then a server that accepts again and offers resumption or not; finally Stop; non-trivial = at least one session was re-established or a permanent error was reached; distinct = distinct (scenario hash, schedule hash)",
-		Real: []string{"xmpp.StreamManager (Run, resume loop, Stop)", "xmpp.backoff", "Client.Connect / Resume incl. start of the receive and keepalive goroutines", "xmpp.NewSession incl. resumption", "ConnError classification"},
-		Stub: []string{"TCP (simnet) incl. refused / timed-out / reset dials", "XMPP server (scripted model)", "clock (synctest)", "goroutine scheduling (token scheduler)", "math/rand jitter (seeded)"},
-		Run:  runC13,
+		ID:    "C13",
+		Rule:  "scenario = a StreamManager running a real client (SM on/off) through 1-4 rounds of: termination of the established session (FIN / RST / graceful </stream:stream> / stream error at a drawn instant), then 0-6 failing attempts (connection refused, dial timeout, accept-then-reset, negotiation cut at header/auth/bind) or a permanent failure (SASL <failure/>), then a server that accepts again and offers resumption or not; finally Stop; non-trivial = at least one session was re-established or a permanent error was reached; distinct = distinct (scenario hash, schedule hash)",
+		Real:  []string{"xmpp.StreamManager (Run, resume loop, Stop)", "xmpp.backoff", "Client.Connect / Resume incl. start of the receive and keepalive goroutines", "xmpp.NewSession incl. resumption", "ConnError classification"},
+		Stub:  []string{"TCP (simnet) incl. refused / timed-out / reset dials", "XMPP server (scripted model)", "clock (synctest)", "goroutine scheduling (token scheduler)", "math/rand jitter (seeded)"},
+		Run:   runC13,
+		Reach: []string{"c13.reestablished", "c13.permanent_error_reached", "c13.fault_on_keepalive_tick", "c13.lost_during_post_connect", "tls.handshake_complete"},
 	})
 }
 
